@@ -34,3 +34,9 @@ def inner_second_trace_raises(x):
     if CALLS["fail_even"] and ps._IN_FUNCTION_BUILD.get():
         raise RuntimeError("raises while the function body is traced")
     return x * 3.0
+
+
+@onnx_function
+def shape_scaled(x):
+    # uses a symbolic dimension inside a function body
+    return x * (x.shape[0] * 1.0) + x.shape[1]
